@@ -1582,3 +1582,79 @@ Example ex_resize :
     obj_iter t = [(1, 10); (3, 30); (4, 40)] /\ obj_iter q = [(1, 10); (3, 30); (4, 40)] /\
     tsize q = 5 /\ lh_walk t = [7; 1; 2] /\ lh_walk q = [2; 3; 4] /\ lh_walk_back q = [4; 3; 2].
 Proof. eexists _, _. vm_compute. repeat split. Qed.
+
+(* ==================== several objects, changing global hash selection ==================== *)
+Section LhWorldProofs.
+Context {key val : Type}.
+Variable keq : key -> key -> bool.
+Variable hashes : Z -> key -> Z.
+Hypothesis keq_spec : forall a b, keq a b = true <-> a = b.
+
+(* every object keeps the invariant FOR THE HASH FUNCTION IT WAS CREATED WITH *)
+Definition WInv (w : world key val) : Prop :=
+  Forall (fun ob => Inv (hashes (o_sel ob)) (o_tab ob)) (objs w).
+
+Lemma map_lupd {A B} (f : A -> B) l i x : map f (lupd l i x) = lupd (map f l) i (f x).
+Proof. revert i. induction l as [|a l IH]; intros [|i]; cbn; try reflexivity. rewrite IH. reflexivity. Qed.
+
+Lemma Forall_lupd {A} (P : A -> Prop) l i x : Forall P l -> P x -> Forall P (lupd l i x).
+Proof.
+  intros H Hx. revert i. induction H as [|a l Ha Hl IH]; intros [|i]; cbn; constructor; auto.
+Qed.
+
+Theorem gstep_refines al (w : world key val) g :
+  WInv w -> gop_pre keq w g ->
+  exists w' b, gstep keq hashes al w g = Some (w', b) /\ WInv w' /\
+               world_abs w' = gspec_step keq (world_abs w) g b.
+Proof.
+  intros HW Hpre. destruct g as [h|size|i o]; cbn [gstep gspec_step gop_pre] in *.
+  - unfold set_string_hash. destruct ((h =? 0) || (h =? 1)); eexists _, _; (split; [reflexivity|]); auto.
+  - eexists _, _. split; [reflexivity|]. split.
+    + unfold WInv. cbn [objs]. apply Forall_app. split; [exact HW|]. constructor; [|constructor].
+      cbn [o_sel o_tab]. exists []. apply table_new_inv. exact Hpre.
+    + unfold world_abs. cbn [objs]. rewrite map_app. cbn [map o_tab]. do 2 f_equal.
+      change (obj_iter (table_new key val size)) with (abs (table_new key val size)).
+      rewrite (abs_inv (hashes (g_sel w)) _ _ (table_new_inv (hashes (g_sel w)) size Hpre)). reflexivity.
+  - destruct Hpre as (ob & Hnth & Hop). rewrite Hnth.
+    assert (HI : Inv (hashes (o_sel ob)) (o_tab ob)).
+    { unfold WInv in HW. rewrite Forall_forall in HW. apply HW. eapply nth_error_In. exact Hnth. }
+    destruct (step_refines keq (hashes (o_sel ob)) keq_spec al (o_tab ob) o HI Hop) as (t' & b & E & HI' & Ha).
+    rewrite E. eexists _, _. split; [reflexivity|]. split.
+    + unfold WInv. cbn [objs]. apply Forall_lupd; [exact HW|exact HI'].
+    + unfold world_abs. cbn [objs]. rewrite map_lupd.
+      erewrite map_nth_error by exact Hnth. cbn [o_tab]. f_equal. exact Ha.
+Qed.
+
+(* all histories over several objects, interleaved with json_global_set_string_hash:
+   each object is the association list of ITS operations; the selection is invisible *)
+Theorem grun_refines al gs : forall (w : world key val),
+  WInv w -> gadm_run keq hashes al w gs ->
+  exists w' oks, grun keq hashes al w gs = Some (w', oks) /\ WInv w' /\
+                 world_abs w' = gspec_run keq (world_abs w) gs oks /\ length oks = length gs.
+Proof.
+  induction gs as [|g r IH]; intros w HW Hadm.
+  - exists w, []. cbn. auto.
+  - cbn [gadm_run] in Hadm. destruct Hadm as [Hpre Hadm].
+    destruct (gstep_refines al w g HW Hpre) as (w1 & b & E & HW1 & Ha).
+    cbn [grun]. rewrite E in *.
+    destruct (IH w1 HW1 Hadm) as (w' & oks & -> & HW' & Hq & Hlen).
+    exists w', (b :: oks). cbn [gspec_run length]. rewrite <- Ha. auto.
+Qed.
+
+End LhWorldProofs.
+
+(* two objects created under different selections, the selection changed while both hold
+   members (and once to an invalid value): both keep answering as their lists *)
+Definition ex_gops : list (gop Z Z) :=
+  [GNew 2; GOp 0 (OAdd 1 10 false false false); GOp 0 (OAdd 2 20 false false false);
+   GSetHash 1; GOp 0 (OAdd 1 11 false false false); GNew 1; GOp 1 (OAdd 2 5 false false false);
+   GSetHash 7; GOp 0 (ODel 2); GSetHash 0; GOp 1 (OAdd 1 6 false false false); GOp 0 (OAdd 3 30 false false false);
+   GOp 1 (OAdd 2 7 false false false)].
+
+Example ex_world :
+  let hs := fun s k => if s =? 0 then k else 3 * k + 1 in
+  exists w oks, grun Z.eqb hs (fun _ => true) (world0 Z Z) ex_gops = Some (w, oks) /\
+    world_abs w = [[(1, 11); (3, 30)]; [(2, 7); (1, 6)]] /\ map o_sel (objs w) = [0; 1] /\ g_sel w = 0 /\
+    oks = [true; true; true; true; true; true; true; false; true; true; true; true; true] /\
+    gspec_run Z.eqb [] ex_gops oks = [[(1, 11); (3, 30)]; [(2, 7); (1, 6)]].
+Proof. eexists _, _. vm_compute. repeat split. Qed.
